@@ -120,6 +120,21 @@ func genC03(g *Gen) {
 			g.end()
 		}
 	}
+	// a Sort that fails after some of its keys were accepted, then valid ones - on this frame and another
+	for rep := 0; rep < g.pick(12, 100); rep++ {
+		g.begin("sort after failed sort")
+		f := g.do(g.stdNew([]int{3, 5, 14, 30}[g.rng.Intn(4)], "ABFS", 6))
+		o := g.do(g.stdNew([]int{2, 5, 20}[g.rng.Intn(3)], "BAX", 6))
+		f = g.do(Step{Op: "WithRowNums", Recv: f, Dst: rid})
+		o = g.do(Step{Op: "WithRowNums", Recv: o, Dst: rid})
+		for k := 0; k < 3; k++ {
+			bad := [][]Order{{{Col: toBS("A"), Rev: true}, {Col: toBS("nosuch")}}, {{Col: toBS("F")}, {Col: toBS("S"), Rev: true}, {Col: toBS("")}}, {{Col: toBS("nosuch")}}}[g.rng.Intn(3)]
+			g.do(Step{Op: "Sort", Recv: f, Orders: bad})
+			g.do(Step{Op: "Sort", Recv: g.oneOf2(f, o), Orders: []Order{{Col: toBS("B"), Rev: g.rng.Intn(2) == 0}}, Rid: rid})
+			g.do(Step{Op: "Sort", Recv: g.oneOf2(f, o), Orders: []Order{{Col: toBS("A")}, {Col: toBS("B")}}, Rid: rid})
+		}
+		g.end()
+	}
 	g.sortArranged(rid)
 	g.sortExtremes(rid)
 	g.sortTiePatterns(rid)
